@@ -2,7 +2,7 @@
    ObjectUpdateCompressed into a tracked region) and leave it only through KillObject of their region or the teardown
    of their region; teardown removes exactly the region's objects; KillObject removes the named object. *)
 From Coq Require Import NArith List Bool Lia.
-From HV Require Import Obj.SceneGraph Obj.SceneGraphProofs Obj.SceneGraphTree Obj.SceneGraphKill.
+From HV Require Import Obj.SceneGraph Obj.SceneGraphProofs Obj.SceneGraphTree Obj.SceneGraphKill Obj.SceneGraphFut.
 Import ListNotations.
 Open Scope N_scope.
 
@@ -12,7 +12,7 @@ Definition dom_eq (w w' : world) : Prop := forall g, get_obj w' g = None <-> get
 Lemma dom_eq_refl : forall w, dom_eq w w.
 Proof. intros w g. tauto. Qed.
 Lemma dom_eq_trans : forall a b c, dom_eq a b -> dom_eq b c -> dom_eq a c.
-Proof. intros a b c H1 H2 g. rewrite H2. apply H1. Qed.
+Proof. intros a b c H1 H2 g. split; intro X; [apply H1, H2, X|apply H2, H1, X]. Qed.
 Lemma frame_dom_eq : forall w w', frame w w' -> dom_eq w w'.
 Proof.
   intros w w' [F _] g. specialize (F g). destruct (get_obj w' g), (get_obj w g); cbn in F; try discriminate; split; congruence.
@@ -55,7 +55,7 @@ Lemma set_obj_dom : forall w f o o', get_obj w f = Some o -> o_full o' = f -> ke
 Proof.
   intros w f o o' E Hf K. split.
   - intros g. rewrite get_obj_set_obj, Hf. destruct (g =? f) eqn:Q; [|tauto]. apply N.eqb_eq in Q. subst g. rewrite E. split; discriminate.
-  - intros g a Eg. rewrite get_obj_set_obj, Hf in Eg. destruct (g =? f) eqn:Q; [|eauto]. apply N.eqb_eq in Q. inversion Eg; subst. exact Hf.
+  - intros g a Eg. rewrite get_obj_set_obj, Hf in Eg. destruct (g =? f) eqn:Q; [|eauto]. apply N.eqb_eq in Q. inversion Eg. subst a. congruence.
 Qed.
 
 Lemma reparent_dom : forall w r f q w', keys_ok w -> handle_object_reparented w r f q = Some w' -> dom_eq w w' /\ keys_ok w'.
@@ -65,7 +65,7 @@ Qed.
 
 Lemma update_existing_dom : forall w f p k w', keys_ok w -> update_existing w f p k = Some w' -> dom_eq w w'.
 Proof.
-  intros w f p k w' K H. unfold update_existing in H. bind_inv H. pose proof (K _ _ E) as Kf.
+  intros w f p k w' K H. unfold update_existing in H. bind_inv H.
   match type of H with bind ?st _ = _ => destruct st as [[w1 ch0]|] eqn:E1; cbn [bind] in H; [|discriminate] end.
   assert (A1 : dom_eq w w1 /\ keys_ok w1).
   { destruct (negb (o_region o =? dflt (p_region p) (o_region o))).
@@ -94,20 +94,22 @@ Proof.
       + inversion E2. apply dom_eq_refl. }
   eapply dom_eq_trans; [exact D1|]. eapply dom_eq_trans; [exact D2|]. eapply dom_eq_trans; [exact A3|].
   destruct ((ch0 || ch1) && is_some (region_state w (dflt (p_region p) (o_region o)))).
-  - bind_inv H. destruct (region_state w3 (o_region o0)); inversion H; apply dom_eq_refl.
+  - bind_inv H. destruct (region_state w3 (o_region o0)); inversion H; intros g; cbn; tauto.
   - inversion H. apply dom_eq_refl.
 Qed.
 
 Lemma register_all_dom : forall ls w r, dom_eq w (register_all w r ls).
 Proof. intros. apply frame_dom_eq. apply frame_register_all. Qed.
 
+Ltac dom_same H := inversion H; let x := fresh "x" in intros x; cbn; tauto.
+
 (* an object enters the lookup only by being announced into a tracked region *)
-Lemma step_enter : forall w e w' g, keys_ok w -> step w e = Some w' -> get_obj w g = None -> get_obj w' g <> None ->
+Lemma step_enter : forall w e w' g, Idx w -> step w e = Some w' -> get_obj w g = None -> get_obj w' g <> None ->
   exists cmp r l p av v, e = EFull cmp r l g p av v /\ region_state w r <> None.
 Proof.
-  intros w e w' g K H Hn Hs.
+  intros w e w' g I H Hn Hs. pose proof I as (K & _).
   assert (NO : dom_eq w w' -> False) by (intros D; apply Hs; apply D; exact Hn).
-  destruct e as [cmp r l f p av v|r l v|r l crc v|f v|r l|r|r|r l|r l|r]; cbn [step] in H; exfalso || idtac.
+  destruct e as [cmp r l f p av v|r l v|r l crc v|f v|r l|r|r|r l|r l|r]; cbn [step] in H.
   - destruct (get_obj w f) as [o|] eqn:Eo.
     + exfalso. apply NO. eapply update_existing_dom; eauto.
     + destruct (region_state w r) eqn:Ers; [|inversion H; subst; contradiction].
@@ -120,21 +122,86 @@ Proof.
       destruct (N.eq_dec g f) as [->|Hne].
       * exists cmp, r, l, p, av, v. split; [reflexivity|congruence].
       * exfalso. apply Hs. rewrite G. apply D. rewrite get_obj_set_obj. cbn [o_full]. apply N.eqb_neq in Hne. rewrite Hne. exact Hn.
-  - apply NO. destruct (region_state w r); [|inversion H; apply dom_eq_refl].
-    destruct (lookup_local w r l); [eapply update_existing_dom; eauto|inversion H; apply dom_eq_refl].
-  - apply NO. destruct (region_state w r); [|inversion H; apply dom_eq_refl].
-    destruct (lookup_local w r l); [|inversion H; apply dom_eq_refl].
-    destruct (o_crc o =? crc); [eapply update_existing_dom; eauto|inversion H; apply dom_eq_refl].
-  - apply NO. destruct (get_obj w f); [eapply update_existing_dom; eauto|inversion H; apply dom_eq_refl].
-  - destruct (get_rs w r); [|discriminate].
-    apply Hs. destruct (get_obj w' g) as [a|] eqn:Ea; [|reflexivity]. exfalso.
-    (* kill only removes *)
-    revert Ea. generalize (kill_fuel w). intros n. clear NO Hs. revert H. revert w w' K Hn. 
-    admit.
-  - bind_inv H. inversion H; subst w'. apply Hs. cbn [get_obj w_full set_rs cancel_region_futures set_futs].
-    admit.
-  - apply NO. bind_inv H. inversion H. apply dom_eq_refl.
-  - apply NO. bind_inv H. inversion H. apply dom_eq_refl.
-  - apply NO. bind_inv H. inversion H. apply dom_eq_refl.
-  - apply NO. bind_inv H. inversion H. apply register_all_dom.
-Abort.
+  - exfalso. apply NO. destruct (region_state w r); [|dom_same H].
+    destruct (lookup_local w r l); [eapply update_existing_dom; eauto|dom_same H].
+  - exfalso. apply NO. destruct (region_state w r); [|dom_same H].
+    destruct (lookup_local w r l); [|dom_same H].
+    destruct (o_crc o =? crc); [eapply update_existing_dom; eauto|dom_same H].
+  - exfalso. apply NO. destruct (get_obj w f); [eapply update_existing_dom; eauto|dom_same H].
+  - exfalso. destruct (get_rs w r); [|discriminate]. destruct (kill_Idx _ _ _ _ _ I H) as [_ Sh].
+    destruct (get_obj w' g) as [a|] eqn:Ea; [|congruence]. destruct (Sh _ _ Ea) as (a0 & Ea0 & _). congruence.
+  - exfalso. destruct (clear_spec _ _ _ K H) as [G _]. rewrite G, Hn in Hs. congruence.
+  - exfalso. apply NO. bind_inv H. dom_same H.
+  - exfalso. apply NO. bind_inv H. dom_same H.
+  - exfalso. apply NO. bind_inv H. dom_same H.
+  - exfalso. apply NO. bind_inv H. inversion H. apply register_all_dom.
+Qed.
+
+(* an object leaves the lookup only through a KillObject in its region or the teardown of its region *)
+Lemma step_leave : forall w e w' g o, Idx w -> step w e = Some w' -> get_obj w g = Some o -> get_obj w' g = None ->
+  (exists l, e = EKill (o_region o) l) \/ e = EClear (o_region o).
+Proof.
+  intros w e w' g o I H Eo Hn. pose proof I as (K & _).
+  assert (NO : dom_eq w w' -> False) by (intros D; apply D in Hn; congruence).
+  destruct e as [cmp r l f p av v|r l v|r l crc v|f v|r l|r|r|r l|r l|r]; cbn [step] in H.
+  - exfalso. destruct (get_obj w f) as [of|] eqn:Ef.
+    + apply NO. eapply update_existing_dom; eauto.
+    + destruct (region_state w r) eqn:Ers; [|inversion H; subst; congruence].
+      unfold track_new in H. bind_inv H. rename w0 into w1. bind_inv H.
+      assert (Ko : keys_ok (set_obj w (mkObj l f p r av v v v 0 (negb cmp) [] None))).
+      { intros x a Ex. rewrite get_obj_set_obj in Ex. cbn [o_full] in Ex. destruct (x =? f) eqn:Q; [|eauto].
+        apply N.eqb_eq in Q. inversion Ex; subst. reflexivity. }
+      destruct (track_dom _ _ _ _ Ko E) as [D _].
+      assert (G : get_obj w' g = get_obj w1 g) by (destruct (region_state w1 (o_region o0)); inversion H; reflexivity).
+      rewrite G in Hn. apply D in Hn. rewrite get_obj_set_obj in Hn. cbn [o_full] in Hn. destruct (g =? f); [discriminate|congruence].
+  - exfalso. apply NO. destruct (region_state w r); [|dom_same H].
+    destruct (lookup_local w r l); [eapply update_existing_dom; eauto|dom_same H].
+  - exfalso. apply NO. destruct (region_state w r); [|dom_same H].
+    destruct (lookup_local w r l) as [ol|]; [|dom_same H].
+    destruct (o_crc ol =? crc); [eapply update_existing_dom; eauto|dom_same H].
+  - exfalso. apply NO. destruct (get_obj w f); [eapply update_existing_dom; eauto|dom_same H].
+  - left. exists l. destruct (get_rs w r); [|discriminate].
+    destruct (kill_futs _ _ _ _ _ I H) as (_ & _ & _ & _ & G). destruct (G _ _ Eo Hn) as [Hr _]. rewrite Hr. reflexivity.
+  - right. destruct (clear_spec _ _ _ K H) as [G _]. rewrite G, Eo in Hn. destruct (o_region o =? r) eqn:Q; [|discriminate].
+    apply N.eqb_eq in Q. rewrite Q. reflexivity.
+  - exfalso. apply NO. bind_inv H. dom_same H.
+  - exfalso. apply NO. bind_inv H. dom_same H.
+  - exfalso. apply NO. bind_inv H. dom_same H.
+  - exfalso. apply NO. bind_inv H. inversion H. apply register_all_dom.
+Qed.
+
+(* KillObject removes the object it names *)
+Lemma kill_target_removed : forall w r l w' o, Idx w -> Tree w -> step w (EKill r l) = Some w' ->
+  lookup_local w r l = Some o -> get_obj w' (o_full o) = None.
+Proof.
+  intros w r l w' o I T H L. cbn [step] in H. destruct (get_rs w r); [|discriminate].
+  assert (T0 : TreeG w (odet no_ovr []) None) by (eapply TreeG_ext; [|exact T]; intros g; reflexivity).
+  destruct (kill_KI _ r w l w' [] I T0 H) as [_ G]. exact (G o L).
+Qed.
+
+(* an announced object is tracked afterwards *)
+Lemma step_announce : forall w cmp r l f p av v w', keys_ok w -> region_state w r <> None ->
+  step w (EFull cmp r l f p av v) = Some w' -> get_obj w' f <> None.
+Proof.
+  intros w cmp r l f p av v w' K Hrs H. cbn [step] in H. destruct (get_obj w f) as [o|] eqn:Eo.
+  - intro Hn. apply (update_existing_dom _ _ _ _ _ K H) in Hn. congruence.
+  - destruct (region_state w r) eqn:Ers; [|congruence]. unfold track_new in H. cbn [o_full] in H. bind_inv H. rename w0 into w1. bind_inv H.
+    assert (G : get_obj w' f = get_obj w1 f) by (destruct (region_state w1 (o_region o)); inversion H; reflexivity).
+    rewrite G. congruence.
+Qed.
+
+(* over histories: every tracked object was announced *)
+Lemma run_tracked_announced : forall h w0 w g, Idx w0 -> hist_ok input_idx_ok w0 h -> run w0 h = Some w ->
+  get_obj w g <> None ->
+  get_obj w0 g <> None \/ exists cmp r l p av v, In (EFull cmp r l g p av v) h.
+Proof.
+  induction h as [|e t IH]; intros w0 w g I Hok R Hs; simpl in *.
+  - inversion R; subst. left. exact Hs.
+  - destruct Hok as [Hok Hrest]. destruct (step w0 e) as [w1|] eqn:Es; [|discriminate].
+    pose proof (step_Idx _ _ _ I Hok Es) as I1.
+    destruct (IH w1 w g I1 Hrest R Hs) as [H1|(cmp & r & l & p & av & v & Hin)].
+    + destruct (get_obj w0 g) eqn:E0; [left; discriminate|]. right.
+      destruct (step_enter _ _ _ _ I Es E0 H1) as (cmp & r & l & p & av & v & -> & _).
+      exists cmp, r, l, p, av, v. left. reflexivity.
+    + right. exists cmp, r, l, p, av, v. right. exact Hin.
+Qed.
